@@ -4,7 +4,8 @@ CONSTANTS
   MaxLen = 5
   SeqLen = 3
   ConcLen = 0
+  GzLen = 0
   Symbols = {1, 2}
   Mutant = "none"
-INVARIANTS TypeOK OracleSane LinesExact LinesPrefix CarryIsTail OKOnlyAfterAllLines NoOKOnError SidExclusive NoMixing NoForeignBytes BufOwned PendingStable Balanced Export
+INVARIANTS TypeOK OracleSane LinesExact LinesPrefix CarryIsTail OKOnlyAfterAllLines NoOKOnError SidExclusive NoMixing NoForeignBytes BufOwned PendingStable PoolHoldsEachObjectOnce ReaderIsMine GoodGets200 Balanced Export
 CHECK_DEADLOCK FALSE
